@@ -2,7 +2,7 @@
 writes, reader reads, flush ticks, EOF and the two compressor threads; TLC-enumerated single-stream cases
 (chunk script x ticks per gap) are combined into groups and replayed through the real process_reader /
 Compressor under virtual time; real child processes write hostile outputs end-to-end; LogsJudge.tla judges."""
-import base64, hashlib, json, os, random, subprocess, tempfile, shutil
+import base64, hashlib, json, os, random, subprocess, tempfile, shutil, time
 from concurrent.futures import ThreadPoolExecutor
 import vlib, fixture, runlib
 
@@ -84,6 +84,77 @@ def payload(kind, rng, ident):
 
 KINDS = ["text", "no_trailing_newline", "pause_mid_line", "pause_mid_line_twice", "binary", "long_line", "many_short",
          "byte_at_a_time", "empty", "big_incompressible", "big_binary_one_line", "short_then_long"]
+
+
+def repeat_unique(text, times):
+    """What the helper's out_repeat step writes with "unique": true (same xorshift generator)."""
+    M = (1 << 64) - 1
+    x = 0x9E3779B97F4A7C15
+    out = []
+    for i in range(times):
+        x ^= (x << 13) & M
+        x ^= x >> 7
+        x ^= (x << 17) & M
+        rot = ((x << 29) | (x >> 35)) & M
+        out.append("%08d %016x%016x %s" % (i, x, rot, text))
+    return "".join(out).encode()
+
+
+def stalled_listener_scenario(bins, idx, rng, mib=12):
+    """A listener that stops reading while one task has megabytes to say and another writes a little, pauses and writes a
+    little more before it exits 0: everything blocks until the listener goes away; what is stored must still be every byte
+    each task wrote."""
+    import signal
+    import tail as taillib
+    targets = [{"path": "filler"}, {"path": "app"}, {"path": "late", "uses": ["app", "filler"]}]
+    fx = fixture.Fixture(bins, targets)
+    try:
+        line = "filler line with some text to make it longer %s\n" % ("y" * 40)
+        times = mib * 1024 * 1024 // (len(line) + 42)
+        tail_text = "".join("app tail line %04d %s\n" % (i, "t" * 30) for i in range(400))
+        fx.add_cmd("filler", "build", [{"op": "out", "text": "filler starts\n"}, {"op": "out_repeat", "text": line, "times": times, "unique": True},
+                                       {"op": "out", "stream": "stderr", "text": "filler done\n"}, {"op": "exit", "code": 0}], ext=".sh")
+        fx.add_cmd("app", "build", [{"op": "out", "text": "app first line\n"}, {"op": "touch", "path": "app-first"}, {"op": "sleep", "ms": 1500},
+                                    {"op": "out", "text": tail_text}, {"op": "out", "stream": "stderr", "text": "app err\n"}, {"op": "exit", "code": 0}], ext=".sh")
+        fx.add_cmd("late", "build", [{"op": "out", "text": "late\n"}, {"op": "exit", "code": 0}], ext=".sh")
+        written = {("filler", "stdout"): b"filler starts\n" + repeat_unique(line, times), ("filler", "stderr"): b"filler done\n",
+                   ("app", "stdout"): b"app first line\n" + tail_text.encode(), ("app", "stderr"): b"app err\n",
+                   ("late", "stdout"): b"late\n", ("late", "stderr"): b""}
+        fx.git_init()
+        lst = taillib.Listener(fx, {"stdout": True, "stderr": True})
+        if not lst.ready:
+            raise vlib.ToolError("listener did not come up")
+        p = fx.spawn(["run", "-c", "build"])
+        deadline = time.time() + 30
+        while not os.path.exists(fx.marker("app-first")) and time.time() < deadline and p.poll() is None:
+            time.sleep(0.01)
+        os.killpg(lst.p.pid, signal.SIGSTOP)
+        time.sleep(6.0)
+        lst.kill()
+        try:
+            so, se = p.communicate(timeout=200)
+        except subprocess.TimeoutExpired:
+            fx.kill_group(p)
+            raise vlib.ToolError("run did not finish after the stalled listener was killed")
+        if p.returncode is not None and p.returncode < 0:
+            raise vlib.ToolError("run was killed by signal %d" % -p.returncode)
+        res = fx._result(p.returncode, so, se)
+        run_dir = res["out"]["out"]["run"]["path"] if isinstance(res["out"], dict) and "out" in res["out"] else None
+        tasks = []
+        for (tp, stream), data in sorted(written.items()):
+            h = hashlib.sha256(tp.encode()).hexdigest()
+            stored = unzst(bins, os.path.join(run_dir, "build", h, stream + ".zst")) if run_dir else None
+            eq = stored is not None and stored == data
+            first_diff = -1
+            if stored is not None and not eq:
+                first_diff = next((i for i in range(min(len(stored), len(data))) if stored[i] != data[i]), min(len(stored), len(data)))
+            tasks.append({"target": runlib.P(tp), "stream": stream, "kind": "stalled_listener", "ran": True, "written_len": len(data), "filters_ok": True,
+                          "stored_len": len(stored) if stored is not None else -1, "stored_equal": eq, "first_diff": first_diff,
+                          "foreign": False, "shown": False, "show_equal": True})
+        return {"ev": "e2e", "scenario": idx, "rc": res["rc"] if res["rc"] is not None else -9, "want_rc": 0, "tasks": tasks,
+                "stderr": res["stderr"].decode("utf-8", "replace")[-300:]}
+    finally:
+        fx.cleanup()
 
 
 def e2e_scenario(bins, idx, ntargets, rng, kinds=None, failing=False, listener=False, repeat=False):
@@ -267,6 +338,8 @@ def run(pid, tier):
         if i in (3, 4):
             # a group in which one task fails while megabytes of output are still queued for the compressor
             return e2e_scenario(bins, i, 6 if i == 3 else 3, rr, kinds=["megabytes_text", "big_incompressible"], failing=True)
+        if i == 7:
+            return stalled_listener_scenario(bins, i, rr)
         if i == 5:
             # a listener is attached while tasks write output that ends in the middle of a line
             return e2e_scenario(bins, 6, 3, rr, kinds=["no_trailing_newline", "no_trailing_newline", "pause_mid_line"], listener=True)
